@@ -165,6 +165,7 @@ func Advance(d time.Duration) {
 	synctest.Wait()
 }
 
+var bubbleRe = regexp.MustCompile(`synctest bubble (\d+)\]`)
 var goroutineHdr = regexp.MustCompile(`(?m)^goroutine \d+ .*\[(.*)\]:$`)
 
 // Census returns, for the goroutines of the current bubble (excluding the caller), a
@@ -180,12 +181,22 @@ func Census() []string {
 		buf = make([]byte, 2*len(buf))
 	}
 	var out []string
+	mine := ""
 	for i, g := range strings.Split(string(buf), "\n\n") {
-		if i == 0 {
-			continue // the caller
-		}
 		lines := strings.Split(g, "\n")
-		if len(lines) == 0 || !strings.Contains(lines[0], "synctest bubble") {
+		if i == 0 {
+			// the caller: remember which bubble it is in; goroutines leaked by earlier executions
+			// stay parked in their dead bubbles and must not be counted
+			if m := bubbleRe.FindStringSubmatch(lines[0]); m != nil {
+				mine = m[1]
+			}
+			continue
+		}
+		m := bubbleRe.FindStringSubmatch(lines[0])
+		if len(lines) == 0 || m == nil || m[1] != mine {
+			continue
+		}
+		if strings.Contains(g, "testing/synctest.Test") && strings.Contains(lines[0], "synctest.Run") {
 			continue
 		}
 		// created by line identifies the spawning function
